@@ -16,10 +16,15 @@ REQUIRED_BRANCHES = [
     "src:idx", "src:stub", "keys:1", "keys:2", "keys:3",
     # bluge.MultiSearch over 2-3 readers, sort order with a field key, matches outside the first reader
     "src:multisearch", "multisearch-field-sort",
+    # the property-level oracle saw both kinds of reference list
+    "present-value-beyond-marker", "present-values-in-range",
     "chain:after:fresh:ownsort", "chain:after:fresh:sharedsort", "chain:after:samereq:ownsort",
     "chain:before:fresh:ownsort", "chain:before:fresh:sharedsort", "chain:before:samereq:ownsort",
 ]
 ASSUMPTIONS = [
+    "missing_first_last holds exactly for present sort values strictly between lowTerm and highTerm (keyInRange, evaluated by the "
+    "driver on every present value of every reference list); the random generators produce only such values, the two fixed probes "
+    "(mprobe: real index, sprobe: synthetic stream) hold the others and are judged by the property-level order cmpPropKeys",
     "bluge.MultiSearch = ONE collector over the concatenation of the readers' match streams (reader order, then document "
     "order), every match carrying the sort value of its own document: validated per reference list (hit numbers of "
     "AllMatches through MultiSearch are consecutive in that order; reference sort values are read with a search context "
@@ -31,6 +36,8 @@ ASSUMPTIONS = [
     "(validated per reference list: hit numbers of AllMatches are consecutive)",
     "DocumentMatch.SortValue of a collected hit has exactly one entry per sort key "
     "(validated on every reference list: verdict bad:sort-value-has-wrong-number-of-keys otherwise)",
+    "keyword values hold no 0xff byte: ice doc values use 0xff as the term separator, a value containing it is read back "
+    "split (observed: a keyword of 11 x 0xff has the EMPTY sort value); the model takes a field's sort value to be its bytes",
     "sort values are produced by Sort.Value: text bytes as stored, numbers/dates prefix-coded at shift 0 "
     "(Bluge.Numeric, property C10), missing values replaced by lowTerm/highTerm; multi-valued fields are not generated",
     "a TopNSearch object keeps After/Before once given (After after Before on the same object searches backwards): "
@@ -54,6 +61,11 @@ def signature(rec):
         # the model explains the wrong answer by Collector() having reversed, through the shallow
         # SortOrder.Copy, the Sort objects of the request / of a SortOrder value shared between requests
         return "before-mutates-shared-sortorder"
+    if v.startswith("bad:present-value-beyond-missing-marker"):
+        # issued by the driver only when the reference list holds a PRESENT sort value that is not strictly between
+        # lowTerm {0x00} and highTerm 10x0xff (empty, 0x00, >= 10 x 0xff: the fixed probes) AND the implementation's
+        # window is exactly the one the replacement bytes produce; any other misplacement is bad:not-the-slice
+        return "sort-value-beyond-missing-marker"
     return None
 
 
